@@ -902,10 +902,17 @@ func (val Value) Index(key Value) Value {
 		}
 
 		keyStr := key.v.(string)
+		elem, exists := val.v.(map[string]interface{})[keyStr]
+		if !exists {
+			// Consistent with lists and tuples: a key for which HasIndex
+			// answers False is rejected, rather than yielding a null value
+			// that was never a member of the map.
+			panic("map has no element with the given key")
+		}
 
 		return Value{
 			ty: elty,
-			v:  val.v.(map[string]interface{})[keyStr],
+			v:  elem,
 		}
 	case val.Type().IsTupleType():
 		if key.Type() == DynamicPseudoType {
